@@ -253,11 +253,15 @@ func (c *Compiler) processDeviations(module *parse.Module) {
 	for _, a := range children {
 		applyToPath := a.ArgSchema()
 		applyToPfx := applyToPath[0].Space
-		applyToMod, err := nod.GetModuleByPrefix(
+		// The prefix means what the (sub)module the deviation is written
+		// in says
+		applyToMod, err := a.GetModuleByPrefix(
 			applyToPfx, c.modules, c.skipUnknown)
 		if err != nil {
 			c.error(nod, err)
 		}
+		// (a submodule's own tree is part of its module's)
+		applyToMod = c.owningModule(applyToMod)
 
 		allowedNodes := getAugmentableNodesForModule(applyToMod)
 		applyToNode := c.getDataDescendant(
@@ -289,7 +293,13 @@ func (c *Compiler) processDeviations(module *parse.Module) {
 			}
 		}
 		if len(devs) > 0 {
-			c.addDeviation(applyToNode.GetNodeModulename(applyToMod), nod.Name())
+			target := applyToNode.GetNodeModulename(applyToMod)
+			if ur := applyToNode.UsesRoot(); ur != nil {
+				// A node written in a submodule is a node of the module
+				// the submodule belongs to
+				target = c.owningModule(ur).Name()
+			}
+			c.addDeviation(target, nod.Name())
 		}
 	}
 }
